@@ -405,4 +405,8 @@ def run(repo: Repo, rep: Report, tier: str) -> None:
     from .c10 import lookup_order_rule
 
     lookup_order_rule(repo, rep, "C13.R10")
+    from .memo import memo_rule
+
+    memo_rule(repo, rep, "C13.R11")
+
 
